@@ -20,23 +20,23 @@ import (
 func init() { families["join"] = drvJoin }
 
 type joinCase struct {
-	kind           string
-	known, micok   bool
-	nwk, app       lorawan.AES128Key
+	kind            string
+	known, micok    bool
+	nwk, app        lorawan.AES128Key
 	devEUI, joinEUI lorawan.EUI64
-	netID          lorawan.NetID
-	devNonce       int
-	joinNonce      int
-	devAddr        lorawan.DevAddr
-	dl             lorawan.DLSettings
-	rxDelay        int
-	cflist         []byte
-	nsKEK, asKEK   []byte
-	asLabel        string
-	txid           uint32
-	body           []byte
-	reqSender      string
-	reqReceiver    string
+	netID           lorawan.NetID
+	devNonce        int
+	joinNonce       int
+	devAddr         lorawan.DevAddr
+	dl              lorawan.DLSettings
+	rxDelay         int
+	cflist          []byte
+	nsKEK, asKEK    []byte
+	asLabel         string
+	txid            uint32
+	body            []byte
+	reqSender       string
+	reqReceiver     string
 }
 
 func (c *ctx) genCFListBytes() []byte {
